@@ -439,7 +439,7 @@ Definition enc_res (x : res) : list N :=
   | RNotClonable => [8]
   | RPanic site => [9; site]
   | RDropped => [10]
-  | RLen n => [11; n]
+  | RLen n => [11; n; n]            (* Message::length, and the bytes a channel charges for it *)
   | RHeldDropped => [12]
   | RObs o => 13 :: enc_obs o
   | RUB => [66]
